@@ -88,6 +88,24 @@ func (p *Proof) IsValid(public Public) bool {
 	if p == nil {
 		return false
 	}
+	// every field is needed below: a proof with a missing field is not valid
+	if p.Commitment == nil ||
+		p.Z1 == nil ||
+		p.Z2 == nil ||
+		p.Z3 == nil ||
+		p.Z4 == nil ||
+		p.W == nil ||
+		p.Wx == nil ||
+		p.Wy == nil ||
+		p.A == nil ||
+		p.Bx == nil ||
+		p.By == nil ||
+		p.E == nil ||
+		p.S == nil ||
+		p.F == nil ||
+		p.T == nil {
+		return false
+	}
 	if !public.Verifier.ValidateCiphertexts(p.A) {
 		return false
 	}
